@@ -9,7 +9,8 @@ PLAIN_WORDS = ["US", "CA", "a", "b", "xyz", "control", "variant_a", "Setting 1.1
 
 TRICKY_STRINGS = [
     "", " ", "02134", "007", "0", "1", "-1", "1.0", "1.50", "inf", "-inf", "nan", "NaN", "Infinity", "1e5", "1E5",
-    "1_000", "0x10", " 12 ", "١٢", "None", "True", "False", "null",
+    "1_000", "0x10", " 12 ", "١٢", "None", "True", "False", "null", "+5", "2024_01", "1e999", "-Infinity", "+NaN", ".5", "5.", "1e-3",
+    "\u00e9'x", "'\u00e9", "\u65e5\u672c's", '\u00e9"x', "\x7f'",
     "it's", 'say "hi"', "C:\\temp", "\\", "\\\\", "\\n", "\\t", "\\x41", "\\N{BULLET}", "\\u0027", "\\'", '\\"',
     "a\\", "'", '"', "''", '""', "'''", '"""',
     "é", "e\u0301", "日本", "\U0001f600", "\u202eabc", "ß", "İ", "\x00", "a\x00b", "\r", "a\rb", "\t", "\x0b", "\x0c",
